@@ -241,3 +241,9 @@ Definition go_iter {S B S' R} (c : ctl S (B + R)) (kbreak : B -> ctl S' R) (knex
 
 (* the representation invariant of []byte / string values *)
 Definition bytes_ok (l : list N) : Prop := Forall (fun b => (b < 256)%N) l.
+
+(* error values (units with ErrVals): nil, errors.New(text), a pointer to the package's error struct *)
+Inductive go_error (E : Type) : Type := GoErrNil | GoErrNew (text : list N) | GoErrVal (e : E).
+Arguments GoErrNil {E}.
+Arguments GoErrNew {E} text.
+Arguments GoErrVal {E} e.
